@@ -96,6 +96,8 @@ class Kernel:
         self.pool_counter = 0
         self.uuid_counter = 0
         self.preempt_hook = None  # optional callable for reach probes
+        self.pool_delay_p = 0.0  # "slow pool worker" fault: a queued pool task is picked up late
+        self.pool_delays = 0
 
     # --- decisions -------------------------------------------------------------------------
     def decide(self, n):
@@ -745,6 +747,14 @@ class SimThreadPoolExecutor:
             fut, fn, args, kwargs = self._queue.pop(0)
             if fut._cancelled:
                 continue
+            k = K
+            if k.pool_delay_p > 0.0 and k.pool_delays < 40 and k.decide_p(k.pool_delay_p):
+                # the worker is busy elsewhere / descheduled: this task (a callback, a subscription) starts late, which
+                # reorders it against chains that run on other threads
+                d = STALL_DURATIONS[k.decide(4)]
+                k.pool_delays += 1
+                k.stall_time += d
+                k.block(me, ('pool-delay', d), d)
             try:
                 fn(*args, **kwargs)
             except SimKilled:
